@@ -176,7 +176,7 @@ def _strip_nonce(v):
 # ------------------------------------------------------------------------------------------------ generation
 def gen_cases(run):
     rng = run.rng
-    n = run.n(8000, 960000)
+    n = run.n(16000, 960000)
     for i in range(n):
         r = rng.random()
         if r < 0.72:
